@@ -115,7 +115,7 @@ CLAIMS = {
     "C17": ("model_checking",
             "explicit-state search over the real LocalSuperior/LocalCollector/CollectorPool/RemoteCollector/PersistentRemoteSuperior/connection code under the quiescence scheduler on a virtual clock",
             "qsched",
-            "Four closed systems, all over scripted keepers with the real channel capacities: T1 = LocalSuperior with 2 LocalCollectors (+1 connecting late); T3 = LocalSuperior with 1 LocalCollector and one relay wired as production wires it (CollectorPool.addCollectorWithConn on a connection.Conn over net.Pipe, far end = PersistentRemoteSuperior whose first dial yields the other pipe end, with its own LocalCollector); T3stalled = T3 with a parent block 40 slots old, so that the first tick produces a 40-report burst that fills every queue on the link; T3r = T3 in which the far side's re-dial after a dropped link succeeds (action redial = virtual time passes until its retry timer fires; the dial yields a fresh pipe whose near end is handed to the pool as an accepted connection; with the pool stopped the dial is refused), so reconnection, re-subscription and the replay of the current task to the reconnected relay are explored. Actions: add a broadcast qualities task (<=2), add a targeted proof task, remove a task, a waiter reads one report (<=3 explicit reads), connect a collector, stop a collector (for the relay: stop the far collector, stop the far superior, stop the pool, drop the link), fire the virtual timers due. Operation budget / timer instants: T1 4/3 quick, 5/4 thorough; T3 3/2, 4/3; T3stalled 3/1, 3/2; T3r 3/1, 4/2. Every order explored with canonical-state pruning (state = task/channel/registry state + queue lengths on the link + where every goroutine of the system is blocked). In every state the reports read so far belong to their task, carry the producing collector's id and content, are in slot order per collector and - while that collector is up - form a gap-free prefix of its report sequence; at terminal states every live waiter drains its channel and then no call may be pending (RemoveTask, stops, and a probe of the pool: Count()), each task reached the keeper of every collector connected while it was current exactly once, a targeted task only its target and its proof report arrived exactly once, nothing panicked. Open finding: report delivery blocks under the task lock on a full result channel. Fixed finding: stopping a connection with a full receive queue never returned and wedged the pool.",
+            "Four closed systems, all over scripted keepers with the real channel capacities: T1 = LocalSuperior with 2 LocalCollectors (+1 connecting late); T3 = LocalSuperior with 1 LocalCollector and one relay wired as production wires it (CollectorPool.addCollectorWithConn on a connection.Conn over net.Pipe, far end = PersistentRemoteSuperior whose first dial yields the other pipe end, with its own LocalCollector); T3stalled = T3 with a parent block 40 slots old, so that the first tick produces a 40-report burst that fills every queue on the link; T3r = T3 in which the far side's re-dial after a dropped link succeeds (action redial = virtual time passes until its retry timer fires; the dial yields a fresh pipe whose near end is handed to the pool as an accepted connection; with the pool stopped the dial is refused), so reconnection, re-subscription and the replay of the current task to the reconnected relay are explored. Actions: add a broadcast qualities task (<=2), add a targeted proof task, remove a task, a waiter reads one report (<=3 explicit reads), connect a collector, stop a collector (for the relay: stop the far collector, stop the far superior, stop the pool, drop the link), fire the virtual timers due. Operation budget / timer instants: T1 4/3 quick, 5/4 thorough; T3 3/2, 4/3; T3stalled 3/1, 3/2; T3r 3/1, 4/2. Every order explored with canonical-state pruning (state = task/channel/registry state + queue lengths on the link + where every goroutine of the system is blocked). In every state the reports read so far belong to their task, carry the producing collector's id and content, are in slot order per collector and - while that collector is up - form a gap-free prefix of its report sequence; at terminal states every live waiter drains its channel and then no call may be pending (RemoveTask, stops, and a probe of the pool: Count()), each task reached the keeper of every collector connected while it was current exactly once, a targeted task only its target and its proof report arrived exactly once, nothing panicked. Fixed findings: report delivery blocked under the task lock on a full result channel (RemoveTask/AddTask/other tasks wedged); stopping a connection with a full receive queue never returned and wedged the pool.",
             "the TCP listener/dialer and connection keep-alive timers are not driven (keep-alive is switched off on the pipe; what a dial yields is decided by the harness through an overlay-only dial option); after a reconnection, order and completeness of the restarted report sequence are not judged (the collector restarts the task and a straggler of the cancelled run may land among its reports); goroutines woken by the same virtual instant, and a cancelled stage choosing between its context and the next message, race in real time (replay retried, else capped)",
             "DESIGN.md §C17"),
     "C18": ("exploration",
